@@ -103,19 +103,28 @@ func propC07(c *Ctx) {
 			}
 			key := FuncName(fn) + "/" + msg
 			found := ""
-			for k, why := range panicTable {
-				if strings.HasPrefix(key, k) || strings.Contains(key, k) {
-					found = why
-					usedPanic[k] = true
-				}
+			// a panic moved into a helper that did not exist at review time is
+			// the panic of the reviewed function(s) it was extracted from
+			names := []string{FuncName(fn)}
+			if top := topFunc(fn); isNewFunc(top) {
+				names = append(names, c.Owners(fn)...)
 			}
-			if found == "" {
-				// match by prefix of message (Sprintf arguments vary)
+			for _, nm := range names {
+				k2 := nm + "/" + msg
 				for k, why := range panicTable {
-					parts := strings.SplitN(k, "/", 2)
-					if parts[0] == FuncName(fn) && strings.Contains(msg, strings.Trim(parts[1], `"`)) {
+					if strings.HasPrefix(k2, k) || strings.Contains(k2, k) {
 						found = why
 						usedPanic[k] = true
+					}
+				}
+				if found == "" {
+					// match by prefix of message (Sprintf arguments vary)
+					for k, why := range panicTable {
+						parts := strings.SplitN(k, "/", 2)
+						if parts[0] == nm && strings.Contains(msg, strings.Trim(parts[1], `"`)) {
+							found = why
+							usedPanic[k] = true
+						}
 					}
 				}
 			}
